@@ -129,10 +129,11 @@ type c16Case struct {
 	Stop     int // Reader/ChunkReader: stop and Close after this many bytes; -1 = read to the end
 	OwnNum   int // lazy draws: chance (of 6) that a replacement gets a handler of its own
 	MaxRepl  int
+	Task     bool // a succeeding background task is attached on top of the handlers (what replicating backends build)
 }
 
 func (cs *c16Case) String() string {
-	s := fmt.Sprintf("fn=%v n=%d base=%#x step=%d handlers=%d cons=%s", cs.Fn, cs.N, cs.Base, cs.Step, len(cs.Handlers), consNames[cs.Cons])
+	s := fmt.Sprintf("fn=%v n=%d base=%#x step=%d handlers=%d task=%v cons=%s", cs.Fn, cs.N, cs.Base, cs.Step, len(cs.Handlers), cs.Task, consNames[cs.Cons])
 	switch cs.Cons {
 	case consReader:
 		s += fmt.Sprintf(" readBuf=%d stop=%d", cs.ReadBuf, cs.Stop)
@@ -743,6 +744,7 @@ func c16DrawCase(c *sim.RunCtx, nested bool) *c16Case {
 		cs.Handlers = append(cs.Handlers, &c16HandlerSpec{Lazy: true})
 	}
 	cs.Orig = c16DrawBuf(c, cs, false, 0, true)
+	cs.Task = t.Chance(1, 5)
 	return cs
 }
 
@@ -785,6 +787,11 @@ func (r *c16Run) exec() {
 		r.attaching++
 		b = buffer.WithErrorHandler(b, h)
 		r.attaching--
+	}
+	if cs.Task {
+		// must change nothing: the task succeeds
+		b = b.WithTask(func() error { rt.Yield("task"); return nil })
+		r.c.Count("probe_task_over_handlers", 1)
 	}
 	r.consuming = true
 	r.res = r.consume(b)
